@@ -240,6 +240,13 @@ func NewServerPool(proxy *Proxy, spec *ServerPoolSpec, name string) *ServerPool 
 		sp.memoryCache = NewMemoryCache(spec.MemoryCache)
 	}
 
+	// The static servers are shared by every load balancer that falls back
+	// to them, so check their address pattern once, before any request can
+	// read the result.
+	for _, server := range spec.Servers {
+		server.checkAddrPattern()
+	}
+
 	if spec.ServiceRegistry == "" || spec.ServiceName == "" {
 		sp.createLoadBalancer(sp.spec.Servers)
 	} else {
@@ -264,10 +271,6 @@ func (sp *ServerPool) LoadBalancer() LoadBalancer {
 }
 
 func (sp *ServerPool) createLoadBalancer(servers []*Server) {
-	for _, server := range servers {
-		server.checkAddrPattern()
-	}
-
 	spec := sp.spec.LoadBalance
 	if spec == nil {
 		spec = &LoadBalanceSpec{}
@@ -312,11 +315,13 @@ func (sp *ServerPool) useService(instances map[string]*serviceregistry.ServiceIn
 	for _, instance := range instances {
 		for _, tag := range sp.spec.ServerTags {
 			if stringtool.StrInSlice(tag, instance.Tags) {
-				servers = append(servers, &Server{
+				server := &Server{
 					URL:    instance.URL(),
 					Tags:   instance.Tags,
 					Weight: instance.Weight,
-				})
+				}
+				server.checkAddrPattern()
+				servers = append(servers, server)
 				break
 			}
 		}
